@@ -11,6 +11,7 @@ DECIDED = ("R1 Net::rules is an insertion-ordered chain: inserted with a fresh i
 NOT_DECIDED = "delivery instants relative to tokio's clock; the rules' own verdict logic."
 DECIDED += "; R4 also: packets that fell due are delivered before this tick's egress is drained and routed"
 DECIDED += "; R6 the delivery deadline saturates; R1 also: rule ids are unique across the Nets of a thread (recorded finding D36)"
+DECIDED += "; R7 rule objects (user values that may own other RuleGuards) are destroyed only after the registry's RefCell borrow is released"
 ASSUMPTIONS = ["IndexMap::shift_remove preserves the order of the remaining entries; Vec::insert keeps order"]
 
 RULES = "turmoil_net::Net::rules"
